@@ -74,6 +74,37 @@ int wv_fgetc(wv_FILE *f);
 int wv_ungetc(int c, wv_FILE *f);
 int wv_fclose(wv_FILE *f);
 #define strlen wv_strlen
+/* <string.h> comparison / bounded copy functions as plain loops written from the C standard (CBMC's built-in models of them did not
+   finish on symbolic buffers in these proofs - measured: 900 s time-out for one strncmp over a 32-byte tag) */
+static inline int wv_strncmp(const char *a, const char *b, size_t n)
+{
+  for (size_t i = 0; i < n; i++)
+  {
+    unsigned char x = (unsigned char)a[i], y = (unsigned char)b[i];
+    if (x != y) return x < y ? -1 : 1;
+    if (x == 0) return 0;
+  }
+  return 0;
+}
+static inline int wv_memcmp(const void *a, const void *b, size_t n)
+{
+  for (size_t i = 0; i < n; i++)
+  {
+    unsigned char x = ((const unsigned char *)a)[i], y = ((const unsigned char *)b)[i];
+    if (x != y) return x < y ? -1 : 1;
+  }
+  return 0;
+}
+static inline char *wv_strncpy(char *d, const char *s, size_t n)
+{
+  size_t i = 0;
+  for (; i < n && s[i] != 0; i++) d[i] = s[i];
+  for (; i < n; i++) d[i] = 0;
+  return d;
+}
+#define strncmp wv_strncmp
+#define memcmp wv_memcmp
+#define strncpy wv_strncpy
 size_t wv_strlen(const char *s);
 wv_FILE *wv_fopen(const char *path, const char *mode);
 static inline int wv_fflush(wv_FILE *f) { int wv_r; return wv_r; }   /* no effect on the ghost file */
